@@ -49,7 +49,7 @@ def stdlib_side(tier, out):
     o = lambda n: os.path.join(out, n)
     _vh(["stdlibx", "table", o("obs_table.ndjson")])
     _vh(["stdlibx", "replay", o("stdlib_cases.ndjson"), o("obs_replay.ndjson"), o("sum_replay.json"), scratch])
-    n_random = 6000 if tier == "quick" else 60000
+    n_random = 6000 if tier == "quick" else 200000
     _vh(["stdlibx", "random", o("stdlib_table.ndjson"), str(n_random), o("obs_random.ndjson"), o("sum_random.json"), scratch])
     shutil.rmtree(scratch, ignore_errors=True)
     # cgetline: one process per stdin content, plus one with stdin closed
@@ -64,8 +64,11 @@ def stdlib_side(tier, out):
             stdin_path=path)
         stdin_sums.append(_load(o("sum_stdin_%d.json" % sid)))
         obs_stdin += C.read_ndjson(o("obs_stdin_%d.ndjson" % sid))
-    p = subprocess.run([C.VH, "stdlibx", "stdin", o("stdlib_stdin.ndjson"), "1", o("obs_stdin_closed.ndjson"), o("sum_stdin_closed.json")],
-                       stdin=None, stdout=subprocess.DEVNULL, stderr=subprocess.PIPE, preexec_fn=lambda: os.close(0), timeout=300)
+    # file descriptor 0 really closed (the shell closes it before exec'ing the harness)
+    p = subprocess.run(["sh", "-c", 'exec "$0" "$@" <&-', C.VH, "stdlibx", "stdin", o("stdlib_stdin.ndjson"), "1",
+                        o("obs_stdin_closed.ndjson"), o("sum_stdin_closed.json")],
+                       stdout=subprocess.DEVNULL, stderr=subprocess.PIPE, timeout=300,
+                       env=dict(os.environ, VERIF_SEED=str(C.seed())))
     if p.returncode != 0:
         raise C.ToolError("harness failed with stdin closed: " + p.stderr.decode("utf-8", "replace")[-500:])
     stdin_sums.append(_load(o("sum_stdin_closed.json")))
@@ -110,7 +113,7 @@ def fs_side(tier, out):
 
     def walks():
         """impl -> spec: seeded random walks longer than the enumerated depth, judged by Trace_Fs"""
-        nw, ln = ("300", "12") if tier == "quick" else ("4000", "16")
+        nw, ln = ("300", "12") if tier == "quick" else ("8000", "20")
         ws = os.path.join(out, "fs_walk_scratch")
         _vh(["stdlibx", "fswalk", ws, o("fswalk.ndjson"), o("sum_walk.json"), nw, ln])
         shutil.rmtree(ws, ignore_errors=True)
@@ -275,7 +278,8 @@ def run(tier):
         "predicates, to_bits/from_bits and rounding of exact half-integers are predicted from the bit pattern",
         "operating-system error codes and messages are not modelled (success/failure class and resulting tree only)",
         "to_string/print text, parse_float, to_lowercase/to_uppercase beyond ASCII, str_from_utf8_lossy on invalid input, "
-        "split/replace on the empty pattern (join law only) and std.operators.* are checked for type / no panic only",
+        "split/replace on the empty pattern (join law only), std.operators.float_sum/float_product and std.operators.* on "
+        "iterators that are not `array~` are checked for type / no panic only",
         "fs: single process, no symlinks, names p q d d/x, file contents are short tokens; resource exhaustion excluded",
         "docs/stdlib.md headings are read as listed in coverage.doc_readings (Stdlib!DocReadings)",
     ]
